@@ -302,7 +302,7 @@ func (p *Proxy) handleConnectRequest(ctx *Context, req *http.Request, session *S
 	}
 	if session.Hijacked() {
 		log.Debugf("martian: connection hijacked by request modifier")
-		return nil
+		return errClose
 	}
 
 	if p.mitm != nil {
@@ -316,7 +316,7 @@ func (p *Proxy) handleConnectRequest(ctx *Context, req *http.Request, session *S
 		}
 		if session.Hijacked() {
 			log.Infof("martian: connection hijacked by response modifier")
-			return nil
+			return errClose
 		}
 
 		if err := res.Write(brw); err != nil {
@@ -382,7 +382,7 @@ func (p *Proxy) handleConnectRequest(ctx *Context, req *http.Request, session *S
 		}
 		if session.Hijacked() {
 			log.Infof("martian: connection hijacked by response modifier")
-			return nil
+			return errClose
 		}
 
 		if err := res.Write(brw); err != nil {
@@ -403,7 +403,7 @@ func (p *Proxy) handleConnectRequest(ctx *Context, req *http.Request, session *S
 	}
 	if session.Hijacked() {
 		log.Infof("martian: connection hijacked by response modifier")
-		return nil
+		return errClose
 	}
 
 	res.ContentLength = -1
@@ -496,7 +496,7 @@ func (p *Proxy) handle(ctx *Context, conn net.Conn, brw *bufio.ReadWriter) error
 		proxyutil.Warning(req.Header, err)
 	}
 	if session.Hijacked() {
-		return nil
+		return errClose
 	}
 
 	// perform the HTTP roundtrip
@@ -518,7 +518,7 @@ func (p *Proxy) handle(ctx *Context, conn net.Conn, brw *bufio.ReadWriter) error
 	}
 	if session.Hijacked() {
 		log.Infof("martian: connection hijacked by response modifier")
-		return nil
+		return errClose
 	}
 
 	var closing error
